@@ -292,7 +292,7 @@ func Header(w *tr.W, sc int, a *Asset, rt *project.RepTruth, c Cfg, extra tr.E) 
 	}
 	e := tr.E{"ev": "hdr", "sc": sc, "asset": a.Name, "rep": rt.ID, "kind": rt.Kind, "N": rt.N, "dur": rt.Dur, "vod0": rt.Vod0,
 		"TS": rt.TS, "loopMS": loopMS, "tsbd": c.EffTSBD(), "ato": c.AtoMS, "snr": c.EffSNR(), "ast": c.AST, "mode": c.Mode,
-		"L": rt.L, "keepdigs": false, "stop": -1, "slack": 0, "cfg": strings.Join(c.Parts(), "/")}
+		"L": rt.L, "keepdigs": false, "stop": -1, "slack": 0, "multi": false, "cfg": strings.Join(c.Parts(), "/")}
 	for k, v := range extra {
 		e[k] = v
 	}
@@ -336,7 +336,7 @@ func HeaderE(sc int, a *Asset, rt *project.RepTruth, c Cfg, extra tr.E) tr.E {
 	}
 	e := tr.E{"ev": "hdr", "sc": sc, "asset": a.Name, "rep": rt.ID, "kind": rt.Kind, "N": rt.N, "dur": rt.Dur, "vod0": rt.Vod0,
 		"TS": rt.TS, "loopMS": loopMS, "tsbd": c.EffTSBD(), "ato": c.AtoMS, "snr": c.EffSNR(), "ast": c.AST, "mode": c.Mode,
-		"L": rt.L, "keepdigs": false, "stop": -1, "slack": 0, "cfg": strings.Join(c.Parts(), "/")}
+		"L": rt.L, "keepdigs": false, "stop": -1, "slack": 0, "multi": false, "cfg": strings.Join(c.Parts(), "/")}
 	for k, v := range extra {
 		e[k] = v
 	}
